@@ -182,14 +182,45 @@ func runC13(r *simkit.Run) {
 			r.Fail("saved-height-in-future", "after-crash", "%s: loaded height %d, node had committed %d", where, s, lastCommitted)
 		}
 		r.Eventf("%s: restarted at saved height %d (committed %d)", where, s, lastCommitted)
+		opsAtRestart := fsys.Ops
 		for i := int(s); i < len(hist); i++ {
 			h := int64(i + 1)
+			time.Sleep(hist[i].sleep)
 			del, end := node2.exec(h, hist[i], time.Now())
 			cmp(where+" (replay)", h, hist[i], del, end)
 			node2.a.Commit()
 		}
 		if got := fullState(node2.a); got != refState {
 			r.Fail("restart-diverges", "state", "%s: final state after restart from height %d differs from the never-stopped node:\n got:  %s\n want: %s", where, s, trunc(got, 1200), trunc(refState, 1200))
+		}
+		// 3. the restarted node kept saving while it replayed (over whatever the crash left on
+		// disk, e.g. a stale temporary file): stop it (cleanly or by another crash between
+		// saves) and start a third incarnation from what it wrote
+		if fsys.Ops == opsAtRestart {
+			return out
+		}
+		r.Probe("second-restart-after-save")
+		if c.Chance(500, "second-stop-is-crash") {
+			fsys.Crash()
+		} else {
+			fsys.SyncAll()
+		}
+		node3, err := c13Load(r, w.chain.Genesis)
+		if err != nil {
+			r.Fail("state-file-not-loadable", "second-restart", "%s: the file saved by the restarted node cannot be loaded: %v (files: %v)", where, err, fsys.Files())
+		}
+		s3 := node3.a.Info(abcitypes.RequestInfo{}).LastBlockHeight
+		if s3 > int64(len(hist)) {
+			r.Fail("saved-height-in-future", "second-restart", "%s: second restart loaded height %d of %d", where, s3, len(hist))
+		}
+		for i := int(s3); i < len(hist); i++ {
+			h := int64(i + 1)
+			del, end := node3.exec(h, hist[i], time.Now())
+			cmp(where+" (second replay)", h, hist[i], del, end)
+			node3.a.Commit()
+		}
+		if got := fullState(node3.a); got != refState {
+			r.Fail("restart-diverges", "state-second-restart", "%s: final state after the second restart from height %d differs from the never-stopped node:\n got:  %s\n want: %s", where, s3, trunc(got, 1200), trunc(refState, 1200))
 		}
 		return out
 	}
